@@ -119,6 +119,12 @@ struct Numeric {
     max_len: usize,
     tys: Vec<(&'static str, RunV)>,
     ptys: Vec<(&'static str, RunP)>,
+    /// only the aggregations that stay exact with infinite observations (positions, counts, extrema)
+    order_only: bool,
+}
+fn order_op(op: AggOp) -> bool {
+    use AggOp::*;
+    matches!(op, CountValid | CountNone | VFirst | VLast | VMax | VMin | VArgmax | VArgmin | VCountValue(_) | First | Last | Max | Min | Argmax | Argmin | CountValue(_))
 }
 
 fn classify(op: AggOp, x: &[X], got: &Outcome<Vec<Cell>>) -> Option<String> {
@@ -136,6 +142,18 @@ fn classify(op: AggOp, x: &[X], got: &Outcome<Vec<Cell>>) -> Option<String> {
 
 impl Numeric {
     fn check_word(&self, word: &[u8], ctx: &mut Ctx) {
+        if self.name.ends_with("-nan-kinds") {
+            // every NaN is the same null (DESIGN 5.4); only words that contain a null
+            if decode(word, &self.alpha).iter().any(|v| v.is_none()) {
+                for kind in [1u8, 3] {
+                    with_nan_kind(kind, || self.check_word_inner(word, ctx));
+                }
+            }
+        } else {
+            self.check_word_inner(word, ctx)
+        }
+    }
+    fn check_word_inner(&self, word: &[u8], ctx: &mut Ctx) {
         let x = decode(word, &self.alpha);
         let len = x.len();
         ctx.fam(&self.name).states += 1;
@@ -149,6 +167,9 @@ impl Numeric {
         let xs = decode(&sorted_syms, &self.alpha);
         let permuted = sorted_syms != word;
         for op in valid_ops(len, &self.alpha) {
+            if self.order_only && !order_op(op) {
+                continue;
+            }
             let model = agg_model(op, &x, &[]);
             for (tname, run) in &self.tys {
                 for src in [Source::Owned, Source::TIter, Source::OptView] {
@@ -157,7 +178,7 @@ impl Numeric {
                         Some(g) => g,
                     };
                     ctx.eval(&self.name, outcome_hash(&got));
-                    if *tname == "f64" && src == Source::TIter {
+                    if *tname == "f64" && src == Source::TIter && !self.order_only {
                         check_scaling(&self.name, word, op, &x, &[], &got, &model, ctx);
                     }
                     if let Some((exp, g)) = judge(&got, &model, cmp_of(op)) {
@@ -195,6 +216,9 @@ impl Numeric {
         }
         if x.iter().all(|v| v.is_some()) {
             for op in plain_ops(&self.alpha) {
+                if self.order_only && !order_op(op) {
+                    continue;
+                }
                 let model = agg_model(op, &x, &[]);
                 for (tname, run) in &self.ptys {
                     for src in [Source::Owned, Source::TIter] {
@@ -401,6 +425,24 @@ fn main() {
             ("f32", run_agg_valid::<f32>),
         ],
         ptys: vec![("f64", run_agg_plain::<f64> as RunP), ("i32", run_agg_plain::<i32>), ("i64", run_agg_plain::<i64>)],
+        order_only: false,
+    };
+    let nan = Numeric {
+        name: "numeric-nan-kinds".into(),
+        alpha: vec![None, Some(-1.0), Some(0.0), Some(2.0)],
+        max_len: run.pick(5, 6),
+        tys: vec![("f64", run_agg_valid::<f64> as RunV), ("f32", run_agg_valid::<f32>)],
+        ptys: vec![],
+        order_only: false,
+    };
+    // infinities are ordinary observations for counts, positions and extrema: a series may consist of nothing else
+    let inf = Numeric {
+        name: "numeric-inf".into(),
+        alpha: vec![None, Some(f64::NEG_INFINITY), Some(0.0), Some(1.0), Some(f64::INFINITY)],
+        max_len: run.pick(5, 6),
+        tys: vec![("f64", run_agg_valid::<f64> as RunV), ("Option<f64>", run_agg_valid::<Option<f64>>), ("f32", run_agg_valid::<f32>)],
+        ptys: vec![("f64", run_agg_plain::<f64> as RunP), ("f32", run_agg_plain::<f32>)],
+        order_only: true,
     };
     // narrow element types with values whose squares / sums leave the element type's exact range
     // (50001^2 > i32::MAX and is not an f32): everything must be accumulated in f64
@@ -410,6 +452,7 @@ fn main() {
         max_len: run.pick(4, 5),
         tys: vec![("i32", run_agg_valid::<i32> as RunV), ("Option<i32>", run_agg_valid::<Option<i32>>), ("f32", run_agg_valid::<f32>), ("i64", run_agg_valid::<i64>)],
         ptys: vec![("i32", run_agg_plain::<i32> as RunP), ("i64", run_agg_plain::<i64>)],
+        order_only: false,
     };
     let pairs = Pairs { alpha: vec![None, Some(0.0), Some(1.0), Some(3.0)], max_len: run.pick(4, 5) };
     let bools = Bools { max_len: run.pick(7, 11) };
@@ -425,6 +468,8 @@ fn main() {
             "pairs" => pairs.check_word(&word, &mut ctx),
             "bools" => bools.check_word(&word, &mut ctx),
             "numeric-wide" => wide.check_word(&word, &mut ctx),
+            "numeric-inf" => inf.check_word(&word, &mut ctx),
+            "numeric-nan-kinds" => nan.check_word(&word, &mut ctx),
             "numeric-long" => ctx.merge(aggs_long(!run.quick(), 1)),
             _ => num.check_word(&word, &mut ctx),
         }
@@ -432,6 +477,8 @@ fn main() {
     }
     let mut total = explore_tree(&num, run.threads);
     total.merge(explore_tree(&wide, run.threads));
+    total.merge(explore_tree(&inf, run.threads));
+    total.merge(explore_tree(&nan, run.threads));
     total.merge(aggs_long(!run.quick(), run.threads));
     total.merge(explore_tree(&pairs, run.threads));
     total.merge(explore_tree(&bools, run.threads));
